@@ -729,7 +729,28 @@ impl Inbound {
 
 /// Frames delivering `inb`; IPv4 packets are cut at `cuts` (payload offsets) if given.
 pub fn frames_for(cfg: &NetCfg, inb: &Inbound, ident: u16, cuts: &[usize]) -> indep::R<Vec<Vec<u8>>> {
+    frames_for_opts(cfg, inb, ident, cuts, &[])
+}
+
+/// The same with IPv4 options (`opts`, a multiple of 4 octets, at most 40) in the header of every
+/// piece: IHL, total length and header checksum are adjusted, nothing else changes.
+pub fn frames_for_opts(cfg: &NetCfg, inb: &Inbound, ident: u16, cuts: &[usize], opts: &[u8]) -> indep::R<Vec<Vec<u8>>> {
     let pkt = inb.packet(ident);
-    let pieces = if inb.src.is_v4() && !cuts.is_empty() { frag4::fragment_at(&pkt, cuts)? } else { vec![pkt] };
+    let mut pieces = if inb.src.is_v4() && !cuts.is_empty() { frag4::fragment_at(&pkt, cuts)? } else { vec![pkt] };
+    if inb.src.is_v4() && !opts.is_empty() && opts.len() % 4 == 0 && opts.len() <= 40 {
+        for p in pieces.iter_mut() {
+            let mut q = Vec::with_capacity(p.len() + opts.len());
+            q.extend_from_slice(&p[..20]);
+            q.extend_from_slice(opts);
+            q.extend_from_slice(&p[20..]);
+            q[0] = 0x40 | ((20 + opts.len()) / 4) as u8;
+            let tl = q.len() as u16;
+            indep::put16(&mut q, 2, tl);
+            indep::put16(&mut q, 10, 0);
+            let c = indep::cksum::checksum(&[&q[..20 + opts.len()]]);
+            indep::put16(&mut q, 10, c);
+            *p = q;
+        }
+    }
     Ok(pieces.iter().map(|p| wrap_for_host(cfg, &inb.src_mac, &inb.dst_mac(), p)).collect())
 }
